@@ -25,8 +25,8 @@ import (
 	"verif/ev"
 	"verif/mcx"
 	"verif/vrt"
-	"verif/worlds/track"
 	"verif/worlds/tcpw"
+	"verif/worlds/track"
 	"verif/worlds/udpw"
 )
 
@@ -82,6 +82,7 @@ type cfg struct {
 	DeregFails bool // the peer never answers the deregistration request: Cancel ends with its (virtual) deadline
 	ETag       bool // every registration answer and notification carries the same ETag (a re-confirmed, unchanged representation)
 	TCP        bool // the same notification streams on a real tcp/client.Conn (Session.Run read loop over an in-memory stream)
+	CancelInCb bool // the cancel command is carried out by the observation's own callback, at its next notification (Cancel called from inside the callback)
 	Conc       bool // every received message is processed in its own thread (exported ProcessReceivedMessage option); notifications injected back to back
 }
 
@@ -96,6 +97,9 @@ func (c cfg) String() string {
 	if c.ETag {
 		d += " same-etag"
 	}
+	if c.CancelInCb {
+		d += " cancel-from-inside-the-callback"
+	}
 	return fmt.Sprintf("observe reg=%s depth=%d two=%v con-notifications=%v concurrent-processing=%v preempt<=%d%s", c.Reg, c.Depth, c.Two, c.CON, c.Conc, c.Preempt, d)
 }
 
@@ -103,13 +107,15 @@ var seqAlphabet = []uint32{0, 1, 2, 1 << 23, 1<<23 + 1, 1<<24 - 1}
 var dtAlphabet = []time.Duration{0, 127 * time.Second, 129 * time.Second}
 
 type obsState struct {
-	token      message.Token
-	regDone    bool
-	regErr     error
-	cancelReq  bool
-	cancelDone bool
-	cancelErr  error
-	log        []string // payloads seen by the callback
+	token         message.Token
+	regDone       bool
+	regErr        error
+	cancelReq     bool
+	cancelDone    bool
+	cancelErr     error
+	log           []string // payloads seen by the callback
+	ocancel       func(context.Context) error
+	cancelStarted bool
 }
 
 func scenario(c cfg) *mcx.Scenario {
@@ -128,6 +134,7 @@ func scenario(c cfg) *mcx.Scenario {
 			}
 			obs := make([]*obsState, nobs)
 			delivered := 0
+			finishing := false
 			vrt.App("peer", func() {
 				uo := udpw.Opts{NStart: 4, MaxRetransmit: 0, LimitTotal: 8, LimitEndpoint: 8, QueueSize: 4,
 					Handler: func(_ *responsewriter.ResponseWriter[*client.Conn], r *pool.Message) {}}
@@ -200,12 +207,26 @@ func scenario(c cfg) *mcx.Scenario {
 							defer track.Unhold(n)
 							b, _ := n.ReadBody()
 							obs[i].log = append(obs[i].log, string(b))
+							if c.CancelInCb && obs[i].cancelReq && !obs[i].cancelStarted && obs[i].ocancel != nil {
+								// the application ends the observation from inside its callback
+								obs[i].cancelStarted = true
+								obs[i].cancelErr = obs[i].ocancel(context.Background())
+								obs[i].cancelDone = true
+							}
 						})
 						obs[i].regErr, obs[i].regDone = err, true
 						if err != nil {
 							return
 						}
-						vrt.WaitUntil("observer waits for the cancel command", func() bool { return obs[i].cancelReq })
+						obs[i].ocancel = ocancel
+						vrt.WaitUntil("observer waits for the cancel command", func() bool {
+							return obs[i].cancelReq && (!c.CancelInCb || finishing || obs[i].cancelStarted)
+						})
+						if obs[i].cancelStarted {
+							vrt.WaitUntil("observer waits for the cancel issued by its callback", func() bool { return obs[i].cancelDone })
+							return
+						}
+						obs[i].cancelStarted = true
 						cctx, ccancel := context.Background(), context.CancelFunc(func() {})
 						if c.DeregFails {
 							cctx, ccancel = vrt.WithTimeout(context.Background(), 5*time.Second)
@@ -441,6 +462,7 @@ func scenario(c cfg) *mcx.Scenario {
 					}
 				}
 				vrt.Metric("notifications_delivered_in_one_stream", int64(delivered))
+				finishing = true
 				for _, o := range obs {
 					o.cancelReq = true // let observers finish so the execution ends without parked application threads
 				}
@@ -488,6 +510,9 @@ func main() {
 		scs = append(scs, scenario(cfg{Reg: reg, Depth: 2}))
 	}
 	scs = append(scs, scenario(cfg{Reg: "205obs", Depth: ev.Pick(r, 2, 3), Two: true}))
+	scs = append(scs, scenario(cfg{Reg: "205obs", Depth: ev.Pick(r, 3, 5), Two: true, CancelInCb: true}))
+	scs = append(scs, scenario(cfg{Reg: "205obs", Depth: ev.Pick(r, 3, 4), CancelInCb: true}))
+	scs = append(scs, scenario(cfg{Reg: "205obs", Depth: ev.Pick(r, 3, 4), Two: true, CancelInCb: true, TCP: true}))
 	scs = append(scs, scenario(cfg{Reg: "205obs", Depth: ev.Pick(r, 2, 3), DeregFails: true}))
 	scs = append(scs, scenario(cfg{Reg: "205obs", Depth: 2, DeregFails: true, CON: true}))
 	scs = append(scs, scenario(cfg{Reg: "205obs", Depth: ev.Pick(r, 3, 4), ETag: true}))
